@@ -17,6 +17,7 @@ MANIFEST = {
                   'TTL - 1 and nothing else changed followed by the unchanged payload; the next hop is the gateway of the longest-prefix route for the destination (the destination itself '
                   'for a direct route) on that route\'s interface with that interface\'s local address; no route => error and nothing forwarded.',
     'level_note': 'Hop-by-hop delivery to "the destination host and no other", loops across several routers and ARP resolution are async (Arp::resolve, Network::send) and outside; the TTL bound on '
-                  'a packet\'s life follows from the one-hop decrement (decreasing measure). Native replay observes only panic/return value, the real IpTable lookup and the real header '
-                  're-serialisation; other violations are reported INCONCLUSIVE. Trusts mirx + environment models + z3.',
+                  'a packet\'s life follows from the one-hop decrement (decreasing measure). The spawned forwarding task is run symbolically with the ARP outcome chosen by the model (resolved / failed). Native replay observes panic/return value, '
+                  'the real IpTable lookup, the real header re-serialisation, the started forward (Arp::resolve_hook) and - in a real two-network simulation - whether anything is sent when the next hop '
+                  'does not answer ARP; other task-level violations are reported INCONCLUSIVE. Trusts mirx + environment models + z3.',
 }
